@@ -213,14 +213,14 @@ func (g *mgen) genC13(id string) *c13Case {
 	for _, x := range lops {
 		switch x.mode {
 		case 0:
-			g.adjSet(a, x.kind, x.key, false)
+			g.adjSet(a, x.kind, x.key, true)
 		case 1:
 			g.adjRemove(a, x.kind, x.key)
 		case 2:
 			g.adjRemove(a, x.kind, x.key)
-			g.adjSet(a, x.kind, x.key, false)
+			g.adjSet(a, x.kind, x.key, true)
 		case 3:
-			g.adjSet(a, x.kind, x.key, false)
+			g.adjSet(a, x.kind, x.key, true)
 			g.adjRemove(a, x.kind, x.key)
 		}
 	}
